@@ -191,6 +191,25 @@ def expand_matches(text, applied):
         applied.add("R10 matches!(e, p) -> (match e { p => true, _ => false })")
 
 
+def fold_literal_shifts(text, applied):
+    """R6': a shift of one integer literal by another (`1 << 6`) is written as its value (`64`): z3's
+    linear arithmetic does not evaluate shifts, so a constant spelled this way would be opaque."""
+    m = R.mask(text)
+    out, last, n = [], 0, 0
+    for mm in re.finditer(r"(?<![\w.])(\d[\d_]*)\s*<<\s*(\d[\d_]*)(?![\w.])", m):
+        a, b = int(mm.group(1).replace("_", "")), int(mm.group(2).replace("_", ""))
+        if b >= 128:
+            continue
+        out.append(text[last:mm.start()])
+        out.append(str(a << b))
+        last = mm.end()
+        n += 1
+    out.append(text[last:])
+    if n:
+        applied.add("R6' literal shift folded to its value x%d" % n)
+    return "".join(out)
+
+
 def drop_awaits(text, applied):
     """R9: every `.await` is dropped (the async fn is verified as the sequential composition of its
     awaits; each awaited call stands for the completed future's output)."""
@@ -457,6 +476,7 @@ def process_fn(text, block, applied, canary=False):
     if any(k == "deawait" for k, _ in d):
         text = drop_awaits(text, applied)
     text = rewrite_macros(text, applied)
+    text = fold_literal_shifts(text, applied)
 
     m = R.mask(text)
     body_open = None
